@@ -5,6 +5,7 @@ sys.path.insert(0, "/verif")
 os.chdir("/verif")
 props = [json.loads(l) for l in open("properties.jsonl")]
 checks, na = [], []
+NA = {"C16": "not applicable to this technique: the property quantifies over thread schedules (interleavings of concurrent get_template / render / cache calls); contracts on one call, discharged function by function, say nothing about interleavings, and no deductive verifier for concurrent Python exists here. The sequential parts (mutex released on every exit of _load, build-once under the lock, no shared render state outside Context) are proved under C14/C13 and listed there; the schedule part is not decided rather than decided by another technique (DESIGN.md section 5, C16)."}
 for p in props:
     pid = p["id"]
     if os.path.exists("props/%s.py" % pid):
@@ -32,7 +33,7 @@ for p in props:
             "technique": meta["technique"],
         })
     else:
-        na.append({"property_id": pid, "reason": "not claimed: check not built yet (see DESIGN.md section 8 build order)"})
+        na.append({"property_id": pid, "reason": NA.get(pid, "not claimed: check not built yet (see DESIGN.md section 8 build order)")})
 m = {
     "version": 1,
     "setup_cmd": "./setup.sh",
